@@ -148,3 +148,74 @@ Example state_json_has_refs :
   | None => false
   end = true.
 Proof. vm_compute. reflexivity. Qed.
+
+(* ================================================================================== *)
+(* the refs table and temporaries (seeded regression C11-c11_r2_2): two actions with different
+   arguments, encoded by an encoder whose Action branch registers temporary copies *)
+Definition h_two_actions : heap :=
+  [ (0, mk (HDict [KS "a"; KS "b"]) [VO 1; VO 2]);
+    (1, mk (HAction action_fields)
+           [VP (PStr "u1"); VP (PStr "UtteranceBotAction"); VP (PStr "f"); VP (PStr "STARTED"); VO 3; VO 4; VP (PInt 1)]);
+    (2, mk (HAction action_fields)
+           [VP (PStr "u2"); VP (PStr "GestureBotAction"); VP (PStr "f"); VP (PStr "STARTED"); VO 5; VO 6; VP (PInt 1)]);
+    (3, mk (HDict []) []);
+    (4, mk (HDict [KS "script"]) [VP (PStr "one")]);
+    (5, mk (HDict []) []);
+    (6, mk (HDict [KS "gesture"]) [VP (PStr "wave")]) ].
+
+(* CPython: the memory of a freed temporary is handed to the next one *)
+Definition alloc_reuse (k : nat) : id := 1000 + Z.of_nat (Nat.modulo k 2).
+(* an allocator that never reuses an identity during one encoding *)
+Definition alloc_distinct (k : nat) : id := 1000 + Z.of_nat k.
+
+Lemma alloc_distinct_fresh : alloc_fresh alloc_distinct h_two_actions.
+Proof.
+  split.
+  - intro k. unfold alloc_distinct.
+    destruct (lookup h_two_actions (1000 + Z.of_nat k)) as [n|] eqn:E; [|reflexivity]. exfalso.
+    apply lookup_in in E. unfold h_two_actions in E. cbn [In] in E.
+    repeat (destruct E as [E|E]; [apply (f_equal fst) in E; cbn [fst] in E; lia|]). exact E.
+  - intros k k' H. unfold alloc_distinct in H. lia.
+Qed.
+
+(* with reuse the second action is written with refs to the FIRST action's dicts: the restored
+   graph is not the saved one *)
+Lemma tmp_reuse_refuted :
+  exists j, encode_tmp alloc_reuse flags_fixed 10 h_two_actions (VO 0) = Some j /\
+            canon_of 100 (decode flags_fixed classes_now 10 j) <> canon_of 100 (Some (h_two_actions, VO 0)).
+Proof. eexists. split; [vm_compute; reflexivity|]. vm_compute. discriminate. Qed.
+
+(* the second action of the restored graph carries the first action's arguments *)
+Example tmp_reuse_symptom :
+  match encode_tmp alloc_reuse flags_fixed 10 h_two_actions (VO 0) with
+  | Some j =>
+    match decode flags_fixed classes_now 10 j with
+    | Some (h', VO r') =>
+      match dict_values h' (VO r') with
+      | Some [VO a1; VO a2] =>
+        match lookup h' a1, lookup h' a2 with
+        | Some (mk _ [_; _; _; _; c1; s1; _]), Some (mk _ [_; _; _; _; c2; s2; _]) => val_eqb s1 s2 && val_eqb c1 c2
+        | _, _ => false
+        end
+      | _ => false
+      end
+    | _ => false
+    end
+  | None => false
+  end = true.
+Proof. vm_compute. reflexivity. Qed.
+
+(* without reuse the same encoder is restored correctly, and `enc` (no temporaries) as well *)
+Example tmp_distinct_ok :
+  match encode_tmp alloc_distinct flags_fixed 10 h_two_actions (VO 0) with
+  | Some j => opt_eqb ctree_eqb (canon_of 100 (decode flags_fixed classes_now 10 j)) (canon_of 100 (Some (h_two_actions, VO 0)))
+  | None => false
+  end = true.
+Proof. vm_compute. reflexivity. Qed.
+
+Example no_tmp_ok :
+  match encode flags_fixed 10 h_two_actions (VO 0) with
+  | Some j => opt_eqb ctree_eqb (canon_of 100 (decode flags_fixed classes_now 10 j)) (canon_of 100 (Some (h_two_actions, VO 0)))
+  | None => false
+  end = true.
+Proof. vm_compute. reflexivity. Qed.
